@@ -31,6 +31,7 @@ type scn struct {
 	// server the fault-free client never finishes with: only used with cancellation)
 	ExtraHeaders int
 	NoExtName    bool // external data without a table name (the library supplies the default)
+	DeepExc      int  // the terminal exception carries this many nested causes
 }
 
 var scenarios = []scn{
@@ -45,6 +46,7 @@ var scenarios = []scn{
 	{Name: "insert-none", Insert: true, Comp: ch.CompressionNone},
 	{Name: "select-exception", EndsExc: true},
 	{Name: "insert-exception", Insert: true, Stream: 2, EndsExc: true},
+	{Name: "select-deep-exception", EndsExc: true, DeepExc: 40},
 }
 
 // fault is one planned perturbation.
@@ -156,6 +158,10 @@ func runScenarioWith(sc scn, seed int64, f *fault, readTimeout time.Duration, ba
 	var foreign sync.WaitGroup
 	exc := []ref.Exception{{Code: 241, Name: "DB::Exception", Message: "Memory limit exceeded (injected)", Stack: "stack"}, {Code: 999, Name: "DB::Nested", Message: "cause", Stack: ""}}
 
+	for i := 0; i < sc.DeepExc; i++ {
+		// low byte 5 (EndOfStream) / 1 (Data) in the codes: leftovers of an under-read chain parse as packets
+		exc = append(exc, ref.Exception{Code: int32(0x105 + 0x100*i - 4*(i%2)), Name: fmt.Sprintf("DB::Cause%d", i), Message: "nested cause", Stack: ""})
+	}
 	fire := func(g string) {
 		switch f.Kind {
 		case "exception", "exception+write-error":
@@ -388,6 +394,8 @@ func runScenarioWith(sc scn, seed int64, f *fault, readTimeout time.Duration, ba
 			if f.Kind == "write-error" {
 				out.Fired = true
 			}
+		case "none":
+			out.Fired = true // no perturbation: the scenario's own terminal exception is the failure
 		case "deadline-passed":
 			cancel() // context already done before the call
 			out.Fired = true
